@@ -463,7 +463,7 @@ pub fn stave_hbf_shapes(cfg: &LinkCfg) -> Vec<(&'static str, HbfShape)> {
     let frame = |bc: u8, hits: &[Hit], empty: bool| conforming_frame(&cfg.lanes, bc, hits, empty);
     let page = |evs: Vec<Ev>| PageShape { cont: None, evs };
     let f1 = frame(0x11, &[ha[0], ha[2]], false);
-    let f2 = frame(0x22, &[], true);
+    let f2 = frame(0x00, &[], true); // chip empty frames whose bunch-counter byte is zero
     let f3 = frame(0x33, &[ha[1], ha[5], ha[3], ha[8]], false);
     let f4 = frame(0x44, &[ha[0], ha[6], ha[7], ha[4], ha[9]], false);
     let split = |f: &Vec<Word>, at: usize| (f[..at].to_vec(), f[at..].to_vec());
